@@ -410,6 +410,24 @@ def run(repo: Repo, ctx) -> None:
         ctx.ob('C16.R5', f'{short(f)}:schedules-tick', ok,
                f'{f.name} no longer schedules the rebalancing tick', f.loc,
                sample='calls _maybe_schedule_tick()')
+    # the request is counted before the tick is considered:
+    # _maybe_schedule_tick() returns early while _nacquires is zero
+    ga = CFG(acq.node, raise_pred=lambda e: False, assert_raises=False)
+    incs = [n.id for n in ga.nodes if n.kind == 'stmt' and isinstance(
+        n.ast, ast.AugAssign) and isinstance(n.ast.op, ast.Add)
+        and norm(n.ast.target) == 'self._nacquires']
+    ticks = [n.id for n in ga.nodes if any(
+        norm(c.func) == 'self._maybe_schedule_tick'
+        for c in ga.node_calls(n))]
+    early = 'not self._nacquires' in norm(mst.node)
+    ok = bool(incs) and bool(ticks) and all(
+        ga.always_before(t, incs) for t in ticks)
+    ctx.ob('C16.R5', 'Pool.acquire:counted-before-tick', ok or not early,
+           'acquire() considers scheduling the tick before it has counted '
+           'itself in _nacquires; _maybe_schedule_tick returns early when '
+           'the count is zero, so a lone request at capacity never arms the '
+           'rebalancing timer and can wait forever', acq.loc,
+           sample='_nacquires += 1 dominates _maybe_schedule_tick()')
     # _tick reschedules itself while acquires are outstanding
     ok = False
     for n in ast.walk(tick.node):
